@@ -57,6 +57,7 @@ type Cfg struct {
 	Envs    [][]string
 	Scout   bool
 	KeepAll bool
+	Honest  bool // honest proposer only: nothing is forced into a block past admission
 	// Schedule knobs
 	Jumps   bool // occasionally jump block time across cycle/year boundaries
 	Absents bool // occasionally starve a validator of votes
@@ -117,6 +118,11 @@ func Run(cfg Cfg) *Result {
 		}
 		if cfg.ExtraPlan != nil {
 			plan.Txs = append(plan.Txs, cfg.ExtraPlan(c)...)
+		}
+		if cfg.Honest {
+			for k := range plan.Txs {
+				plan.Txs[k].Force = false
+			}
 		}
 		if cfg.FilterPlan != nil {
 			plan.Txs = cfg.FilterPlan(c, plan.Txs)
